@@ -475,7 +475,7 @@ func runCase(rq *request) M {
 	}
 	// ... and a third one after the same expression has evaluated another document in between:
 	// the outcome for an input must not depend on which inputs were evaluated before (C05)
-	safeEval(e, warmDoc())
+	outWarm := safeEval(e, warmDoc())
 	out3 := safeEval(e, input)
 	if canon(out3) == canon(out) {
 		// ... and on a second compilation of the same text whose first evaluation saw another document
@@ -488,6 +488,20 @@ func runCase(rq *request) M {
 			}
 			safeEval(e2, warmDoc())
 			out3 = safeEval(e2, input)
+		}
+	}
+	if canon(out3) == canon(out) && out["o"] != "panic" {
+		// ... and what this (used) expression yields for the other document is what a fresh compilation yields for it
+		if e3, err3, p3 := safeCompile(src); err3 == nil && p3 == nil {
+			if len(vars) > 0 {
+				e3.RegisterVars(vars)
+			}
+			if len(exts) > 0 {
+				e3.RegisterExts(exts)
+			}
+			if fresh := safeEval(e3, warmDoc()); canon(fresh) != canon(outWarm) {
+				out3 = M{"o": "differs-on-other-document", "used": outWarm, "fresh": fresh}
+			}
 		}
 	}
 	ev["same3"] = canon(out3) == canon(out)
